@@ -108,6 +108,11 @@ func Choice(name string, n int) int {
 	return rf.Choices[uniq("choice:"+name)]
 }
 
+// BoundaryCount / Boundary: candidate lengths derived by the VM from the integer constants of the code under test
+// (c-1, c, c+1 for every constant 2 <= c <= max in the listed packages, plus 0 and 1). Native build: 0 and 1 only.
+func BoundaryCount(scope string, max int) int { return 2 }
+func Boundary(scope string, max int, i int) int { return i }
+
 // Param returns a tier-dependent bound from the harness configuration.
 func Param(name string, def int) int {
 	load()
